@@ -1,3 +1,10 @@
 #!/bin/sh
-# builds the fact extractor; filled in as the framework grows
+# Builds the fact extractor and pre-checks the dependencies (offline; nothing is fetched).
+set -e
+cd "$(dirname "$0")"
+export CARGO_NET_OFFLINE=true
+( cd driver && cargo +nightly build --release --offline )
+# warm the per-configuration target dirs and the fact cache for the current tree
+python3 -m rules.engine.extract /repo A >/dev/null
+python3 -m rules.engine.extract /repo B >/dev/null || true
 exit 0
